@@ -45,6 +45,8 @@ def plan(ctx):
     jobs = []
     # behaviour emission first (the replay waits for it)
     jobs.append(dict(module=B, cfg="MCBlockBuf_emit_q", kind="emit", pre=2, nh=2, workers=1))
+    # "sandwich": append, a read that moves the offset cache, any cutting / growing call, a read at every offset
+    jobs.append(dict(module=B, cfg="MCBlockBuf_emit_sw", kind="emit", pre=2, nh=2, workers=1))
     jobs.append(dict(module=B, cfg="MCBlockBuf_sim", kind="sim", pre=2, nh=4, simulate=500 if q else 20000, depth=14))
     jobs.append(dict(module=B, cfg="MCBlockBuf_sim_pre0", kind="sim", pre=0, nh=4, simulate=250 if q else 6000, depth=14))
     jobs.append(dict(module=B, cfg="MCBlockBuf_sim_pre1", kind="sim", pre=1, nh=4, simulate=250 if q else 6000, depth=14))
